@@ -125,6 +125,14 @@ def query_step(al, rng, s=0, ops=None, p_extra=0.35):
         from vf.ref import bvsem
 
         st.update(e=e, v=rng.getrandbits(bvsem.width(e)))
+        if rng.random() < 0.2:
+            # the value as an expression (a variable, or a constant on the expression side and a variable as value)
+            w_ = bvsem.width(e)
+            if w_ == al.w:
+                if rng.random() < 0.5:
+                    st.update(v=al.v())
+                else:
+                    st.update(e=["bvv", rng.getrandbits(w_), w_], v=al.v())
     elif op in ("is_true", "is_false"):
         st.update(e=al.constraint())
     return st
